@@ -37,9 +37,12 @@ CFG = gen.cfg(max_syms=12, p_choice=12)
 def _cases(draw):
     d = gen.D(draw)
     tree = gen._Builder(d, CFG).build()
-    files = [gen.gen_renames(d, tree, 1, 6, dup_pct=20, undefined_pct=10, lower_pct=15)]
+    # options the user can plausibly set (prompt, not a choice member, no own condition) are preferred as replacements:
+    # an alias of an option that stays invisible exercises only the "no effect" half of the rules
+    easy = [e["name"] for e in gen.configs(tree) if e.get("prompt") and not e["prompt"].get("cond") and not e.get("depends") and tree["types"][e["name"]] == "bool"]
+    files = [gen.gen_renames(d, tree, 1, 6, dup_pct=20, undefined_pct=10, lower_pct=15, prefer=easy, prefer_pct=55)]
     if d.chance(30):
-        files.append(gen.gen_renames(d, tree, 1, 3, dup_pct=40))
+        files.append(gen.gen_renames(d, tree, 1, 3, dup_pct=40, prefer=easy, prefer_pct=55))
         # second file gets its own old-name namespace part of the time (same names => duplicates across files)
         if d.chance(50):
             for r in files[1]:
